@@ -5,6 +5,7 @@ import (
 	"strings"
 
 	ucfg "github.com/elastic/go-ucfg"
+	"github.com/elastic/go-ucfg/cfgutil"
 	uflag "github.com/elastic/go-ucfg/flag"
 	"github.com/elastic/go-ucfg/parse"
 )
@@ -127,6 +128,26 @@ func genC19(g *Gen) {
 			g.Add(c)
 		}
 	}
+	// the collector used directly: after a first failure every later Add, whatever it carries,
+	// answers with that first failure
+	for i := 0; i < 4; i++ {
+		col := cfgutil.NewCollector(nil, ucfg.PathSep("."))
+		e1 := fmt.Errorf("first failure %d", i)
+		var later []string
+		ok, _ := ucfg.NewFrom(map[string]interface{}{"a": 1})
+		if i%2 == 1 {
+			col.Add(ok, nil)
+		}
+		first := fmt.Sprint(col.Add(nil, e1))
+		later = append(later, fmt.Sprint(col.Add(nil, fmt.Errorf("second failure"))))
+		later = append(later, fmt.Sprint(col.Add(ok, nil)))
+		later = append(later, fmt.Sprint(col.Add(nil, fmt.Errorf("third failure"))))
+		later = append(later, fmt.Sprint(col.Error()))
+		_, gerr := col.Get()
+		later = append(later, fmt.Sprint(gerr))
+		g.Add(Case{Coq: fmt.Sprintf("CSticky %s %s", coqStr(first), coqStrList(later)),
+			Desc: map[string]interface{}{"kind": "collector", "first": first, "later": later}, Tags: []string{"collector"}, Nontrivial: true})
+	}
 	for i := 0; i < g.N; i++ {
 		o := normOpts{Sep: ".", Pol: r.Intn(len(policyOpts))}
 		if r.P(1, 6) {
@@ -157,6 +178,13 @@ func genC19(g *Gen) {
 			}
 		}
 		var init map[string]interface{}
+		if listRoot && r.Bool() {
+			// a default config that is a list at its root (no named setting)
+			init = map[string]interface{}{"0": uint64(1), "1": uint64(2)}
+			if o.Sep == "" {
+				init = nil
+			}
+		}
 		if r.P(1, 4) && !listRoot {
 			init = map[string]interface{}{"a": map[string]interface{}{"l": []interface{}{"i0", "i1"}}, "l": []interface{}{uint64(5)}}
 		}
